@@ -261,6 +261,8 @@ def gen_chain(rng, root, risky):
     steps = 0
     while True:
         steps += 1
+        if steps > 14:
+            return None          # e.g. a struct whose only member points to itself
         base, ptr, dims = cur
         is_struct_ptr = base[0] == "agg" and ptr == 1 and not dims
         is_struct_val = base[0] == "agg" and ptr == 0 and not dims
